@@ -1318,6 +1318,11 @@ func macroShape(repo string, args []string) (string, error) {
 		}
 		fmt.Fprintf(&sb, "Definition gen_body_%s : list string :=\n  %s.\n", name, coqStringList(l.bodyStrings(fd)))
 	}
+	if fd := findFunc(f, "", "isLocalVar"); fd != nil {
+		fmt.Fprintf(&sb, "Definition gen_body_isLocalVar : list string :=\n  %s.\n", coqStringList(l.bodyStrings(fd)))
+	} else {
+		return "", fmt.Errorf("isLocalVar not found")
+	}
 	// the helper table conv.groupFuncs: every statement of the package that assigns to it, and whether convertRuleGroup empties
 	// it (at statement level) before the loop over the statements of the group
 	var writes []string
